@@ -1,4 +1,4 @@
-import StepModel.GenCxxLemmas
+import StepModel.GenCxxMirror
 /-!
 # C02 — generated dictionary and classes mirror the EXPRESS schema
 
@@ -281,6 +281,157 @@ theorem C02_mangle_collision_witness :
     enumClassName [.letter 0] = className [.letter 0, .us, .letter 21, .letter 0, .letter 17] := by
   decide
 
+/-! ## emission order -/
+
+/-- The order in which exp2cxx emits the entities (`SCOPEget_entities_superclass_order`, which also fixes the
+    attribute numbering and the order of `AddSubtype` calls) is, for ANY symbol-table iteration order `roots` that
+    delivers exactly the declared entities, a permutation of the declarations in which every entity comes after
+    all of its supertypes. -/
+theorem C02_emission_order {s : Schema} {rank : String → Nat} (wf : WF s rank)
+    (hn : (s.entities.map (·.name)).Nodup) (roots : List String)
+    (hr : ∀ n, n ∈ roots ↔ n ∈ s.entities.map (·.name)) :
+    (emissionOrder s roots).Perm (s.entities.map (·.name)) ∧
+    ∀ pre n post, emissionOrder s roots = pre ++ n :: post →
+      ∀ e, s.findE n = some e → ∀ sup ∈ e.supers, sup ∈ pre := by
+  have hroots : ∀ n ∈ roots, (s.findE n).isSome := by
+    intro n hn'
+    obtain ⟨e, he, rfl⟩ := List.mem_map.mp ((hr n).mp hn')
+    simp [findE_self hn he]
+  obtain ⟨hc, hin, hnd, hpw⟩ := emissionOrder_facts wf roots hroots
+  refine ⟨?_, ?_⟩
+  · rw [List.perm_ext_iff_of_nodup hnd hn]
+    intro m
+    constructor
+    · intro hm
+      obtain ⟨e, hE, _⟩ := hc m hm
+      exact List.mem_map.mpr ⟨e, findE_mem hE, findE_name hE⟩
+    · intro hm
+      exact hin m ((hr m).mpr hm)
+  · intro pre n post heq e hE sup hs
+    have hnmem : n ∈ emissionOrder s roots := by rw [heq]; simp
+    obtain ⟨e', hE', hsups⟩ := hc n hnmem
+    have : e' = e := by rw [hE] at hE'; exact (Option.some.inj hE').symm
+    subst this
+    have hsm := hsups sup hs
+    rw [heq] at hsm hpw
+    rcases List.mem_append.mp hsm with h | h
+    · exact h
+    · rcases List.mem_cons.mp h with h | h
+      · have := (wf.supers n e' hE sup hs).2
+        rw [h] at this; omega
+      · have hp := (List.pairwise_append.mp hpw).2.1
+        have := (List.pairwise_cons.mp hp).1 sup h
+        exact absurd hs (this e' hE)
+
+/-! ## the dictionary mirrors the schema -/
+
+theorem filterMap_names {s : Schema} (order : List String) (h : ∀ n ∈ order, (s.findE n).isSome) :
+    (order.filterMap s.findE).map (·.name) = order := by
+  induction order with
+  | nil => rfl
+  | cons x xs ih =>
+    obtain ⟨e, hE⟩ := Option.isSome_iff_exists.mp (h x (by simp))
+    rw [List.filterMap_cons, hE]
+    simp only [List.map_cons, findE_name hE]
+    rw [ih (fun n hn => h n (by simp [hn]))]
+
+/-- `Spec.Mirror` for every well-formed schema whose defined types avoid the one shape on which the generator as it
+    is written may deviate: when enumeration/select descriptors are created in their own init function
+    (`Generated.descCreation = .ownInit`), a named aggregate of a select gets a null referent
+    (`C02_mirror_witness`).  Excluded inputs: schemas containing `TYPE t = <ARRAY|LIST|SET|BAG> … OF sel`, `sel` (another
+    name for) a SELECT — only in that mode. -/
+theorem C02_mirror_partial {s : Schema} {rank trank : String → Nat} (wf : WF s rank) (wft : WFT s trank)
+    (hn : (s.entities.map (·.name)).Nodup) (roots : List String)
+    (hr : ∀ n, n ∈ roots ↔ n ∈ s.entities.map (·.name))
+    (hx : descCreation = .beforeInits ∨ ∀ td ∈ s.types, ¬ AggrOfSelect s td) :
+    Mirror s (dictOf s roots) := by
+  obtain ⟨hperm, _⟩ := C02_emission_order wf hn roots hr
+  have hroots : ∀ n ∈ roots, (s.findE n).isSome := by
+    intro n hn'
+    obtain ⟨e, he, rfl⟩ := List.mem_map.mp ((hr n).mp hn')
+    simp [findE_self hn he]
+  obtain ⟨hc, _, hnd, _⟩ := emissionOrder_facts wf roots hroots
+  generalize hord : emissionOrder s roots = order at hperm hc hnd
+  have hfound : ∀ n ∈ order, (s.findE n).isSome := by
+    intro n hn'; obtain ⟨e, hE, _⟩ := hc n hn'; simp [hE]
+  have hes : (order.filterMap s.findE).map (·.name) = order := filterMap_names order hfound
+  have hesnd : ((order.filterMap s.findE).map (·.name)).Nodup := by rw [hes]; exact hnd
+  have hmem : ∀ e, e ∈ order.filterMap s.findE ↔ e ∈ s.entities := by
+    intro e
+    constructor
+    · intro h
+      obtain ⟨n, _, hE⟩ := List.mem_filterMap.mp h
+      exact findE_mem hE
+    · intro h
+      refine List.mem_filterMap.mpr ⟨e.name, ?_, findE_self hn h⟩
+      exact hperm.mem_iff.mpr (List.mem_map_of_mem h)
+  have hents : (dictOf s roots).entities =
+      (order.filterMap s.findE).map (finalOf (order.filterMap s.findE)) := by
+    unfold dictOf; simp only [hord]; exact entities_eq s order
+  refine ⟨rfl, ?_, ?_, ?_⟩
+  · rw [hents, List.map_map]
+    have : ((fun d : DEntity => d.name) ∘ finalOf (order.filterMap s.findE)) = (fun e : Entity => e.name) := by
+      funext e; simp [finalOf, applyAll_name, blank]
+    rw [this, hes]; exact hperm
+  · intro e he
+    have hee := (hmem e).mpr he
+    refine ⟨finalOf (order.filterMap s.findE) e, by rw [hents]; exact List.mem_map_of_mem hee, ?_⟩
+    refine ⟨by simp [finalOf, applyAll_name, blank], by simp [finalOf, applyAll_abstract, blank],
+      final_supers _ hesnd e hee, ?_, ?_, ?_⟩
+    · rw [final_attrs _ hesnd e hee]
+      exact forall2_map _ _ (fun a _ => mirrorAttr_dattrOf e.name a)
+    · rw [final_invs _ hesnd e hee]
+      exact forall2_map _ _ (fun a _ => mirrorInv_dinvOf e.name a)
+    · intro x
+      rw [final_subs]
+      simp only [List.mem_flatMap, List.mem_filterMap]
+      constructor
+      · rintro ⟨e', he', sup, hs, hsel⟩
+        by_cases h : e.name = sup
+        · simp [h] at hsel
+          exact ⟨e', (hmem e').mp (List.mem_filterMap.mpr he'), hsel, by rw [h]; exact hs⟩
+        · simp [h] at hsel
+      · rintro ⟨e', he', rfl, hs⟩
+        exact ⟨e', List.mem_filterMap.mp ((hmem e').mpr he'), e.name, hs, by simp⟩
+  · show Forall2 (MirrorType s) s.types (s.types.map (typeOf s))
+    apply forall2_map
+    intro td htd
+    unfold typeOf
+    apply mirrorType_typeOfM wft descCreation td htd
+    rcases hx with h | h
+    · exact Or.inl h
+    · exact Or.inr (h td htd)
+
+/-- Enumeration and select descriptors are created before any init function runs (regenerated from
+    `TYPEPrint`/`TYPEPrint_cc`); does not elaborate on a tree where they are created in their own init function. -/
+theorem C02_descriptors_created_before_inits : descCreation = .beforeInits := rfl
+
+/-- `Spec.Mirror s (dictOf s)`: for every well-formed schema and every symbol-table iteration order, the registered
+    dictionary contains exactly the schema's entities (supertypes in order, subtypes, abstractness, explicit /
+    derived / redeclared attributes and inverse attributes in declaration order with name, optionality, type, kind)
+    and defined types (underlying type, enumeration items in order, select members, aggregate kind / bounds /
+    UNIQUE / OPTIONAL, renames resolved through any chain). -/
+theorem C02_mirror {s : Schema} {rank trank : String → Nat} (wf : WF s rank) (wft : WFT s trank)
+    (hn : (s.entities.map (·.name)).Nodup) (roots : List String)
+    (hr : ∀ n, n ∈ roots ↔ n ∈ s.entities.map (·.name)) :
+    Mirror s (dictOf s roots) :=
+  C02_mirror_partial wf wft hn roots hr (Or.inl C02_descriptors_created_before_inits)
+
+/-- the excluded shape of `C02_mirror_partial`: with descriptors created in the select's own init function the
+    registered referent of `TYPE sl = SET [1:?] OF sel` is null, which mirrors nothing (corpus d5) -/
+def exAggrOfSelect : Schema :=
+  { name := "d5",
+    types := [{ name := "sel", body := .select [.entity "a", .named "len"] },
+              { name := "len", body := .alias (.base .real) },
+              { name := "sl", body := .alias (.aggr .set (some (1, .inf)) false false (.named "sel")) }],
+    entities := [{ name := "a", attrs := [{ name := "x", type := .base .integer }] }] }
+
+theorem C02_mirror_witness :
+    (typeOfM .ownInit exAggrOfSelect { name := "sl", body := .alias (.aggr .set (some (1, .inf)) false false (.named "sel")) }).ref = .null
+    ∧ ¬ MirrorRef (.named "sel") .null := by
+  refine ⟨by decide, ?_⟩
+  intro h; cases h
+
 /-! ## non-vacuity: a diamond with a shared ancestor, a redeclaration on one path, satisfies `WF` -/
 
 def exDiamond : Schema :=
@@ -297,5 +448,28 @@ example : instanceAttrs exDiamond "d" = some [⟨"a", "x", .E⟩, ⟨"a", "y", .
   decide
 
 example : p21Order exDiamond "d" = [("a", "x"), ("a", "y"), ("c", "c1"), ("d", "d1")] := by decide
+
+/-- the hypotheses of `C02_attr_order` / `C02_mirror` are satisfiable: the diamond above is well-formed -/
+example : WF exDiamond exRank := by
+  refine ⟨?_, ?_, ?_⟩
+  · intro n e h sup hs
+    have hm := findE_mem h
+    have hnm := findE_name h
+    simp only [exDiamond, List.mem_cons, List.not_mem_nil, or_false] at hm
+    rcases hm with rfl | rfl | rfl | rfl <;> subst hnm <;> simp at hs
+    · subst hs; exact ⟨by decide, by decide⟩
+    · subst hs; exact ⟨by decide, by decide⟩
+    · rcases hs with rfl | rfl <;> exact ⟨by decide, by decide⟩
+  · intro n e h
+    have hm := findE_mem h
+    have hnm := findE_name h
+    simp only [exDiamond, List.mem_cons, List.not_mem_nil, or_false] at hm
+    rcases hm with rfl | rfl | rfl | rfl <;> subst hnm <;> decide
+  · intro n e h
+    have hm := findE_mem h
+    simp only [exDiamond, List.mem_cons, List.not_mem_nil, or_false] at hm
+    rcases hm with rfl | rfl | rfl | rfl <;> decide
+
+example : (exDiamond.entities.map (·.name)).Nodup := by decide
 
 end StepModel.GenCxx
